@@ -26,24 +26,24 @@ Proof. intros n b s d tr o s' d' H Ho. apply (break_lowering_correct b s d tr o 
 
 (* non-vacuity: while t1: a2; if t3: break; a4  else: a5 -- run with the break taken on the 2nd iteration *)
 Definition ex_b : block :=
-  BCons (SWhile (CUser 1) (BCons (SAtom 2) (BCons (SIf (CUser 3) (BCons SBreak BNil) BNil) (BCons (SAtom 4) BNil))) (BCons (SAtom 5) BNil)) BNil.
-Example ex_run : exec_block 30 ex_b (fun _ => false) [1; 0; 1; 1] = ([1; 2; 3; 4; 1; 2; 3], ONormal, (fun _ => false), []).
+  BCons (SWhile (CUser 1) (BCons (SAtom 4) (BCons (SIf (CUser 3) (BCons SBreak BNil) BNil) (BCons (SAtom 8) BNil))) (BCons (SAtom 10) BNil)) BNil.
+Example ex_run : exec_block 30 ex_b (fun _ => false) [1; 0; 1; 1] = ([1; 4; 3; 8; 1; 4; 3], ONormal, (fun _ => false), []).
 Proof. vm_compute. reflexivity. Qed.
 Example ex_lowered_has_flag : fst (fst (brk_block 5 0 ex_b)) =
   BCons (SSet 0 false) (BCons (SWhile (CAndNot 0 (CUser 1))
-     (BCons (SAtom 2) (BCons (SIf (CUser 3) (BCons (SSet 0 true) (BCons SContinue BNil)) BNil) (BCons (SAtom 4) BNil)))
-     (BCons (SIf (CNot 0) (BCons (SAtom 5) BNil) BNil) BNil)) BNil).
+     (BCons (SAtom 4) (BCons (SIf (CUser 3) (BCons (SSet 0 true) (BCons SContinue BNil)) BNil) (BCons (SAtom 8) BNil)))
+     (BCons (SIf (CNot 0) (BCons (SAtom 10) BNil) BNil) BNil)) BNil).
 Proof. vm_compute. reflexivity. Qed.
 (* non-vacuity with exceptions: while t1: try: (if t2: break); raise r3  except: (if t4: break); a5  -- the body
    raises, handler 0 is selected (decision 0) and breaks on the second iteration *)
 Definition ex_e : block :=
   BCons (SWhile (CUser 1) (BCons (STry (BCons (SIf (CUser 2) (BCons SBreak BNil) BNil) (BCons (SRaise 3) BNil))
-                                      (HCons (BCons (SIf (CUser 4) (BCons SBreak BNil) BNil) (BCons (SAtom 5) BNil)) HNil) BNil BNil) BNil) BNil) BNil.
-Example ex_e_run : exec_block 40 ex_e (fun _ => false) [1; 0; 0; 0; 1; 0; 0; 1] = ([1; 2; 3; 4; 5; 1; 2; 3; 4], ONormal, (fun _ => false), []).
+                                      (HCons false (BCons (SIf (CUser 4) (BCons SBreak BNil) BNil) (BCons (SAtom 10) BNil)) HNil) BNil BNil) BNil) BNil) BNil.
+Example ex_e_run : exec_block 40 ex_e (fun _ => false) [1; 0; 0; 0; 1; 0; 0; 1] = ([1; 2; 3; 4; 10; 1; 2; 3; 4], ONormal, (fun _ => false), []).
 Proof. vm_compute. reflexivity. Qed.
 Example ex_e_lowered_run :
   let '(tr, o, s, d) := exec_block 60 (fst (fst (brk_block 5 0 ex_e))) (fun _ => false) [1; 0; 0; 0; 1; 0; 0; 1] in (tr, o, d)
-  = ([1; 2; 3; 4; 5; 1; 2; 3; 4], ONormal, []).
+  = ([1; 2; 3; 4; 10; 1; 2; 3; 4], ONormal, []).
 Proof. vm_compute. reflexivity. Qed.
 Print Assumptions break_lowering_correct.
 Print Assumptions break_lowering_correct_exec.
